@@ -33,7 +33,7 @@ func TestVerifVerifierDifferential(t *testing.T) {
 	}
 	var cases []dc
 	// one batch of ~75 pairs per index; quick: 2 batches per (key, variant) ~ 3 600 pairs
-	per := map[string]int{"plain-1024": 2, "plain-1536": 2, "plain-2041": 3, "plain-2048": 2, "plain-3072": 2, "plain-4096": 1}
+	per := map[string]int{"plain-1024": 2, "plain-1025": 2, "plain-1026": 1, "plain-1027": 1, "plain-1028": 1, "plain-1029": 1, "plain-1030": 1, "plain-1031": 1, "plain-1536": 2, "plain-2041": 3, "plain-2048": 2, "plain-3072": 2, "plain-4096": 1}
 	for _, name := range plainKeyNames {
 		k := loadKey(t, name)
 		for _, vi := range variants[:] {
